@@ -59,6 +59,7 @@ M0(r) ==
       view   |-> [a \in Apps |-> [active |-> FALSE, bytes |-> <<>>, slot |-> 0]],
       done   |-> [a \in Apps |-> FALSE],       \* the current request completed with a response
       mustWin |-> [a \in Apps |-> FALSE],     \* the response was already received when the deadline was examined
+      fires  |-> [a \in Apps |-> 0],           \* deadlines of the current request that have passed
       resp   |-> {},                            \* <<a, k, j, data, wkc>> the network produced
       hand   |-> <<NoApp, 0>>,                  \* request whose response the receive side holds
       handGenuine |-> FALSE,
@@ -179,13 +180,22 @@ Windows(mm, e, pos) ==
 
 StartOfReq(mm, e) ==
     IF e.at = "idle" /\ e.p \in Apps /\ e.c > 0
-    THEN [mm EXCEPT !.k[e.p] = @ + 1, !.rt[e.p] = (e.c - 1) \div 8, !.txs[e.p] = <<>>, !.mustWin[e.p] = FALSE]
+    THEN [mm EXCEPT !.k[e.p] = @ + 1, !.rt[e.p] = (e.c - 1) \div 8, !.txs[e.p] = <<>>, !.mustWin[e.p] = FALSE, !.fires[e.p] = 0]
     ELSE mm
 
 \* the deadline is examined (timer polled) while the response has already been received
 DeadlineExamined(mm, e) ==
     IF e.at = "TimerPoll" /\ e.p \in Apps /\ e.slot \in Slots /\ e.st[e.slot + 1] = RxDone
     THEN [mm EXCEPT !.mustWin[e.p] = TRUE] ELSE mm
+
+\* "bounded": every deadline that passes uses up one transmission of the request's budget, whatever state the frame is
+\* in - after 1 + retries of them the request has ended, no further deadline is armed for it
+TimerFired(mm, e, pos) ==
+    IF e.at = "TimerFire" /\ e.c \in Apps
+    THEN LET a == e.c
+             m1 == [mm EXCEPT !.fires[a] = @ + 1]
+         IN IF m1.fires[a] > 1 + mm.rt[a] THEN V(m1, "DeadlinesBeyondBudget", pos, <<a, mm.k[a], m1.fires[a], mm.rt[a]>>) ELSE m1
+    ELSE mm
 
 ApplyStep(mm, e, pos) ==
     LET m1 == DeadlineExamined(StartOfReq(mm, e), e)
@@ -217,7 +227,7 @@ MonNext ==
     /\ LET e0 == Rec[l]
            e == e0 @@ [tx_prompt |-> TxPrompt(run)]
        IN m' = IF e.at = "Probe" THEN ApplyProbe(m, e, l)
-               ELSE IF e.p < 0 THEN [m EXCEPT !.st = e.st, !.buf = e.buf, !.bidx = e.bidx]
+               ELSE IF e.p < 0 THEN TimerFired([m EXCEPT !.st = e.st, !.buf = e.buf, !.bidx = e.bidx], e, l)
                ELSE ApplyStep(m, e, l)
     /\ l' = l + 1
     /\ run' = run
